@@ -612,7 +612,7 @@ func runC08TLS12(c *Ctx, pki *tlsPKI) {
 		rep.Eval("tls12/control")
 	}
 	// MITM bit flips on the cleartext flight
-	n := c.Q(150, 1500)
+	n := c.Q(150, 20000)
 	Par(n, func(i int) {
 		rr := c.Rng(fmt.Sprintf("tls12mitm%d", i))
 		ccfg, scfg := mk(rr)
